@@ -29,10 +29,12 @@ def inventory_tie():
     def norm(sect, v):
         # for an object nobody writes (a read-only table) the set of readers is irrelevant: moving a read into a helper is not a change of
         # the sharing discipline.  As soon as one use is a write, every reader matters (it can observe the write).
-        if sect == 'module_objects' and isinstance(v, dict):
-            uses = v.get('uses', [])
+        # An object nobody writes is no shared *state* at all: whether it exists, what container type it is (a table turned into a tuple) and whether
+        # it was deleted as dead code do not change the discipline either.
+        if sect == 'module_objects' and (v is None or isinstance(v, dict)):
+            uses = (v or {}).get('uses', [])
             if not any(':write' in u for u in uses):
-                return {'kind': v.get('kind'), 'uses': '<read-only>'}
+                return '<nothing written>'
         return v
     for sect in ('module_objects', 'instance_state', 'function_state'):
         for k in sorted(set(cur[sect]) | set(ref.get(sect, {}))):
